@@ -971,3 +971,66 @@ def c10_prefix_literals(src, structured=False, timeout=300):
         good = And(e.considered, Or(e.has_ref, e.needs_id))
         out.append(run_query(name, t, cons, Not(good), bound, timeout, extra={"expect": exp}))
     return out
+
+
+# ================================================================================================
+# C06 free-form: any text, one insertion, parse again
+# ================================================================================================
+def c06_freeform(src, n=10, structured=False, timeout=300):
+    """for every text of <= n characters (configured macro `a` / `m::a`) and every statement in it that lacks a
+    reference: the text with the token of a one-digit id inserted at the statement's insertion point is parsed
+    again; the statement is found at the same place and reads back that id, and every statement found before
+    it is still found"""
+    out = []
+    names = (("m", "a"),)
+    t = peg.Text.symbolic(n, "r")
+    base = list(t.well_formed()) + no_directive(t)
+    fm = model.FileModel(src, t)
+    pre, post = src.token(None, structured, False)
+    pre2, post2 = src.token(None, structured, True)
+    ents = {p: model.SymEntry(fm, p, names, structured, None) for p in sorted(fm.found)}
+    digit = z3.BitVec("r_id", 8)
+    dcons = [z3.UGE(digit, 49), z3.ULE(digit, 57)]
+    idx = 0
+    for p, e in ents.items():
+        for q, cq in e.pos.items():
+            if And(e.needs_id, cq) is False:
+                continue
+            idx += 1
+            if not mine(idx):
+                continue
+            for others in ((False, True) if structured else (False,)):
+                a, b_ = (pre2, post2) if others else (pre, post)
+                if structured and And(e.needs_id, cq, e.others if others else Not(e.others)) is False:
+                    continue
+                out_chars = list(t.c[:q]) + list(a) + [digit] + list(b_) + list(t.c[q:])
+                t2 = peg.Text(out_chars)
+                fm2 = model.FileModel(src, t2)
+                cond = And(e.needs_id, cq, (e.others if others else Not(e.others)) if structured else True)
+                if solve.check("feasible", base + dcons + [cond], 60).verdict != "sat":
+                    continue  # this combination of statement start and insertion point cannot occur
+                if p not in fm2.found:
+                    good = False
+                else:
+                    e2 = model.SymEntry(fm2, p, names, structured, None)
+                    back = False
+                    for c2, dspan, val in e2.ref_spans:
+                        back = Or(back, And(c2, val == z3.BV2Int(digit) - 48))
+                    good = And(e2.considered, back, Not(e2.needs_id))
+                    # statements found before p are still found, with the same status
+                    for p1, e1 in ents.items():
+                        if p1 >= p:
+                            break
+                        if p1 in fm2.found:
+                            f2 = model.SymEntry(fm2, p1, names, structured, None)
+                            good = And(good, Or(Not(e1.considered), And(f2.considered, f2.needs_id == e1.needs_id
+                                                                         if not isinstance(f2.needs_id, bool) and not isinstance(e1.needs_id, bool)
+                                                                         else True)))
+                        else:
+                            good = And(good, Not(e1.considered))
+                out.append(run_query("c06-freeform-%s-p%d-q%d%s" % ("structured" if structured else "plain", p, q, "-others" if others else ""),
+                                     t2, base + dcons + [cond], Not(good) if good is not False else z3.BoolVal(True),
+                                     "every text of <= %d characters; statement at %d, token inserted at %d" % (n, p, q), timeout,
+                                     extra={"expect": {"kind": "reads_back", "digits_at": q + len(a), "ndigits": 1, "structured": structured,
+                                                       "macros": names}}))
+    return out
